@@ -150,6 +150,10 @@ func registerIntrinsics(pkg string) {
 			y, _ := px.intTerm(a[2])
 			return wrapInt(px.ar.Ite(px.boolTerm(a[0]), x, y), types.Int64)
 		})
+		reg("vObserve", func(fr *frame, a []value) value {
+			fr.i.px.obs = append(fr.i.px.obs, obsRec{a[0].(string), a[1]})
+			return nil
+		})
 		reg("vSymbolic", func(fr *frame, a []value) value { return true })
 		reg("vDrawCount", func(fr *frame, a []value) value {
 			n := 0
